@@ -4,14 +4,26 @@ Streams
   A  textwrap model: coq model.SccWrap.wrap(width, text) vs textwrap.wrap(text, width, break_on_hyphens=False)
      (the call SCCWriter._layout_line makes) on texts over the basic character set: word lengths 1..40,
      runs of spaces, leading/trailing spaces, hyphens, lengths around the width; widths 32 and others.
-  B  caption sets built through the API (1-4 lines of 1-80 basic characters, cue spacings from just
-     feasible to sparse, clear-screen thresholds, frame-boundary starts) -> SCCWriter().write():
-       correspondence : document == extracted model's document (model.SccWrite.write), except when a float
-                        decision sits on an exact boundary (counted as near_threshold);
-       property oracle: Coq spec.SpecSccw.ok_output on the implementation's document (header, four-hex-digit
-                        words, parity of every byte, PAC rows 1..15, rows <= 32 columns, text kept up to
-                        breaking at spaces, timecodes non-decreasing, displayed within 3 frames of start);
-       re-read        : SCCReader().read(document) -> Coq ok_reread (one caption per cue, same words, start).
+  B  caption sets built through the API: 1-40 cues (identical consecutive cues included) x 1-4 lines x 1-80 basic
+     characters (whitespace-only lines and cues included), several TEXT nodes per line, STYLE nodes, layout_info, a second
+     language, cue spacings from just feasible to sparse, ends after the next start, clear-screen thresholds,
+     frame-boundary starts -> SCCWriter().write():
+       property oracle: Coq spec.SpecSccw.ok_output on the implementation's document (Scenarist header, four-hex-digit
+                        words - CRLF / trailing blanks tolerated -, parity of every byte, one pop-on load per cue in ANY
+                        framing that selects pop-on mode and ends in one End-Of-Caption, distinct PAC rows within 1..15,
+                        rows <= 32 columns, text kept up to breaking at spaces, timecodes non-decreasing, displayed
+                        within 3 frames of start);
+       re-read        : SCCReader().read(document) -> Coq ok_reread (one caption per cue, same words, start);
+       correspondence : document == extracted model's document (model.SccWrite.write) - pycaption's exact framing is
+                        checked HERE only; when a float decision sits on an exact boundary (near_threshold) the
+                        timecodes and clear lines are exempt and the word payload of every load line is still compared.
+     Outside the domain, compared with the model only: characters outside the basic set (special / extended / unknown).
+     Outside the hypothesis (first cue earlier than its own transmission time, clamp at 0): structural clauses and
+     model equality; 'visible within 3 frames' and the re-read are not judged.
+     Known findings are keyed on the FAILURE: a case with a caption on more than 15 rows or a whitespace-only cue that
+     fails is judged a second time with those cues (and their load lines) left out; only when everything else passes
+     and the failure is the documented one ('xx' row address / blank cue dropped by the reader) it gets `failure=...`.
+  C  one long-lived SCCReader that has read raising and valid documents re-reads the writer's output.
 """
 import textwrap
 from fractions import Fraction
@@ -19,6 +31,7 @@ from fractions import Fraction
 import impl
 from wire import Ok, Err, oracle_batch
 from pycaption import SCCWriter, SCCReader, CaptionSet, CaptionList, Caption, CaptionNode
+from pycaption.geometry import Layout, Alignment, HorizontalAlignmentEnum, VerticalAlignmentEnum
 from pycaption.scc import constants as K
 
 TABLES = ("GenSccw.v",)
@@ -68,9 +81,7 @@ def rand_line(rng, maxlen=80, spaces=True):
     s = s[:maxlen]
     if not spaces or rng.random() < 0.9:
         s = s.strip(" ")
-    if not s.strip(" "):
-        s = rng.choice(LETTERS)
-    return s
+    return s            # may be whitespace only (leading blanks reaching the target): in the domain since wave 3
 
 
 def wrap_texts(ctx):
@@ -130,30 +141,85 @@ def run_wrap(ctx, res):
 
 
 # ---------------------------------------------------------------------------------------------------
-def mk_caption(start, end, lines):
+# A case is {"caps": [{"lines": [...], "start": Fraction, "end": Fraction, "shape": {...}}], "flags": {...}}.
+# shape: how the caption is built through the API (outside the model, which sees "\n".join(lines)):
+#   cuts   {"<line index>": [positions]}  several TEXT nodes per line (also empty ones)
+#   italic True                          STYLE nodes around the text
+#   layout True                          a layout_info on the caption
+# flags: second_language (a second language in the set; the writer takes the first), early_first (the first cue
+# starts before its own transmission time: outside the hypothesis), extended (characters outside the basic set:
+# outside the domain)
+def mk_caption(start, end, lines, shape=None):
+    shape = shape or {}
     nodes = []
+    if shape.get("italic"):
+        nodes.append(CaptionNode.create_style(True, {"italics": True}))
     for i, l in enumerate(lines):
         if i:
             nodes.append(CaptionNode.create_break())
-        nodes.append(CaptionNode.create_text(l))
-    return Caption(start, end, nodes)
+        prev = 0
+        for c in sorted((shape.get("cuts") or {}).get(str(i), [])) + [len(l)]:
+            nodes.append(CaptionNode.create_text(l[prev:c]))
+            prev = c
+    if shape.get("italic"):
+        nodes.append(CaptionNode.create_style(False, {"italics": True}))
+    lay = None
+    if shape.get("layout"):
+        lay = Layout(alignment=Alignment(HorizontalAlignmentEnum.LEFT, VerticalAlignmentEnum.TOP))
+    return Caption(start, end, nodes, layout_info=lay)
 
 
 def num(x):
-    """times handed to the API: int when integral, else float (exactly representable values only)"""
+    """times handed to the API: int when integral, else the nearest float (the oracle and the model get the exact
+    Fraction; the difference is below 2^-20 us and inputs on an exact boundary are counted as near_threshold)"""
     return int(x) if x.denominator == 1 else float(x)
 
 
-def gen_caps(ctx, sizes_of):
-    """-> list of (lines, start, end) with Fractions; spacing built from the model's word counts"""
-    rng = ctx.rng
-    n = rng.choice([1, 1, 2, 3, 3, 4, 6])
-    texts = []
-    for _ in range(n):
+def is_blank_text(lines):
+    return not "".join(lines).strip(" ")
+
+
+EXTENDED = sorted(K.SPECIAL_OR_EXTENDED_CHAR_TO_CODE) + ["\u20ac", "\u0416"]      # the last two: unknown -> 91b6
+
+
+def gen_texts(rng, counts):
+    """-> (list of (lines, shape), flags)"""
+    r = rng.random()
+    n = rng.choice([1, 1, 2, 3, 3, 4, 6]) if r < 0.8 else (rng.choice([7, 9, 12]) if r < 0.97 else rng.choice([25, 40]))
+    flags = {}
+    if rng.random() < 0.05:
+        flags["second_language"] = True
+    if rng.random() < 0.03:
+        flags["extended"] = True
+    out = []
+    for ci in range(n):
+        if out and rng.random() < 0.12:
+            out.append((list(out[-1][0]), dict(out[-1][1])))         # identical consecutive cue
+            counts["B_cue_identical_to_previous"] += 1
+            continue
         k = rng.choice([1, 1, 2, 2, 3, 4])
         maxlen = 80 if rng.random() < 0.5 else 32
-        texts.append([rand_line(rng, maxlen) for _ in range(k)])
-    return texts
+        lines = []
+        for _ in range(k):
+            if rng.random() < 0.03:
+                lines.append(" " * rng.randint(1, 3))                # whitespace-only line (space is a basic character)
+            else:
+                lines.append(rand_line(rng, maxlen))
+        counts["B_whitespace_only_line"] += sum(1 for l in lines if not l.strip(" "))
+        if flags.get("extended"):
+            li = rng.randrange(len(lines))
+            pos = rng.randint(0, len(lines[li]))
+            lines[li] = (lines[li][:pos] + rng.choice(EXTENDED) + lines[li][pos:])[:80]
+        shape = {}
+        if rng.random() < 0.3:
+            shape["cuts"] = {str(li): sorted(rng.sample(range(len(l) + 1), min(len(l) + 1, rng.randint(1, 3))))
+                             for li, l in enumerate(lines) if rng.random() < 0.7}
+        if rng.random() < 0.1:
+            shape["italic"] = True
+        if rng.random() < 0.1:
+            shape["layout"] = True
+        out.append((lines, shape))
+    return out, flags
 
 
 def ceil_frac(x, unit):
@@ -161,7 +227,7 @@ def ceil_frac(x, unit):
     return q * unit
 
 
-def schedule(rng, texts, sizes):
+def schedule(rng, sizes, flags):
     """sizes[i] = code words of caption i (incl. the 8 fixed ones). Returns list of (start, end) Fractions."""
     unit = rng.choice([1, 1, 1000, 100100, Fraction(1, 3)])
     mode = rng.choice(["just", "just", "tight", "sparse", "mixed"])
@@ -179,6 +245,8 @@ def schedule(rng, texts, sizes):
         start = ceil_frac(base + slack, unit)
         if prev_start is None and rng.random() < 0.3:
             start += rng.randrange(0, 3600 * 10**6 * rng.choice([1, 30])) // 100100 * 100100
+        if prev_start is None and flags.get("early_first"):
+            start = ceil_frac(need * Fraction(rng.randint(0, 15), 16), unit)      # earlier than it can be transmitted
         spans.append([start, None])
         if prev_start is not None:
             lo, hi = prev_start, start
@@ -195,20 +263,21 @@ def schedule(rng, texts, sizes):
             else:
                 e = lo + (hi - lo) * Fraction(rng.randint(0, 16), 16)
                 e = ceil_frac(e, unit)
-            spans[i - 1][1] = min(max(e, lo + MIN_DURATION), hi)
+            e = min(max(e, lo + MIN_DURATION), hi)
+            if rng.random() < 0.06:
+                e = hi + rng.choice([1, 33367, 10**6])                            # the cue ends after the next one starts
+                flags["overlapping_end"] = True
+            spans[i - 1][1] = e
         prev_start = start
     spans[-1][1] = spans[-1][0] + rng.choice([MIN_DURATION, MIN_DURATION + 1, 10**6, 4 * 10**6])
     return [(Fraction(s), Fraction(e)) for s, e in spans]
 
 
-def exact_float(x):
-    return Fraction(float(x)) == x
-
-
 def near_threshold(caps, sizes):
     """some float decision of the writer sits on an exact boundary (frame floor or the >= of PASS 2)"""
     prev_end = None
-    for (lines, s, e), w in zip(caps, sizes):
+    for c, w in zip(caps, sizes):
+        s, e = c["start"], c["end"]
         cs = max(s - w * MPC, 0)
         for t in (cs, e):
             f = t * 30 / 1001000
@@ -221,67 +290,106 @@ def near_threshold(caps, sizes):
     return False
 
 
-def observe(caps):
-    """caps: list of (lines, start, end). -> (document or Err, reread obs or Err)"""
-    cs = CaptionSet({"en-US": CaptionList([mk_caption(num(s), num(e), lines) for lines, s, e in caps])})
-    doc = impl.call(lambda: SCCWriter().write(cs))
-    if not isinstance(doc, Ok):
-        return doc, None
-    rd = impl.call(lambda: SCCReader().read(doc.v))
+def reread(doc):
+    rd = impl.call(lambda: SCCReader().read(doc))
     if isinstance(rd, Ok):
         lang = rd.v.get_languages()[0]
         rd = Ok([[Fraction(c.start), c.get_text()] for c in rd.v.get_captions(lang)])
-    return doc, rd
+    return rd
+
+
+def observe(case):
+    """-> (document or Err, reread obs or Err)"""
+    langs = {"en-US": CaptionList([mk_caption(num(c["start"]), num(c["end"]), c["lines"], c.get("shape")) for c in case["caps"]])}
+    if case["flags"].get("second_language"):
+        langs["fr"] = CaptionList([mk_caption(1000000, 2000000, ["autre langue"])])
+    cs = CaptionSet(langs)
+    doc = impl.call(lambda: SCCWriter().write(cs))
+    if not isinstance(doc, Ok):
+        return doc, None
+    return doc, reread(doc.v)
 
 
 def wire_caps(caps):
-    return [["\n".join(lines), s, e] for lines, s, e in caps]
+    return [["\n".join(c["lines"]), c["start"], c["end"]] for c in caps]
 
 
-def judge(caps, sizes, rows, doc, rd, model_doc, v_out, v_rd):
-    """-> (violation dict or None, disagreement dict or None)"""
-    inp = [{"lines": lines, "start": str(s), "end": str(e)} for lines, s, e in caps]
-    many_rows = any(r > 15 for r in rows)
-    base = {"input": inp, "replay": "write", "stream": "B"}
-    if many_rows:
-        base["shape"] = "more-than-15-rows"
-    viol = None
+def plain(case):
+    return {"caps": [{"lines": c["lines"], "start": str(c["start"]), "end": str(c["end"]), "shape": c.get("shape") or {}}
+                     for c in case["caps"]], "flags": case["flags"]}
+
+
+def unplain(inp):
+    return {"caps": [{"lines": c["lines"], "start": Fraction(c["start"]), "end": Fraction(c["end"]), "shape": c.get("shape") or {}}
+                     for c in inp["caps"]], "flags": dict(inp.get("flags") or {})}
+
+
+CLEAR = "942c 942c"
+
+
+def doc_lines(doc):
+    """[(timecode, words string)] of the non-empty lines after the header, or None"""
+    ls = [l for l in doc.split("\n")[1:] if l.strip()]
+    out = []
+    for l in ls:
+        if "\t" not in l:
+            return None
+        tc, ws = l.split("\t", 1)
+        out.append((tc, ws.strip()))
+    return out
+
+
+def payload(doc):
+    """the words of the load lines, in order (timecodes and clear lines left out)"""
+    ls = doc_lines(doc)
+    return None if ls is None else [ws for tc, ws in ls if ws != CLEAR]
+
+
+def without_cues(doc, drop):
+    """the document without the load lines (and their own clear lines) of the cues in `drop`; -> (doc, dropped loads)"""
+    ls = doc_lines(doc)
+    if ls is None:
+        return None, []
+    keep, dropped, k, skip_clear = [], [], -1, False
+    for tc, ws in ls:
+        if ws != CLEAR:
+            k += 1
+            skip_clear = k in drop
+            if skip_clear:
+                dropped.append(ws)
+                continue
+        elif skip_clear:
+            skip_clear = False
+            continue
+        keep.append(tc + "\t" + ws)
+    return doc.split("\n")[0] + "\n\n" + "".join(l + "\n\n" for l in keep), dropped
+
+
+def verdict_of(case, doc, rd, v_out, v_rd):
+    """the property verdict of one observation: None or (kind, what, extra)"""
     if not isinstance(doc, Ok):
-        viol = dict(base, kind="more-than-15-rows" if many_rows else "write-raises",
-                    what=f"SCCWriter.write raised {impl.ERR_NAMES.get(doc.code, doc.code)}")
-    elif v_out != 0:
-        viol = dict(base, kind="more-than-15-rows" if many_rows else VERDICT.get(v_out, str(v_out)),
-                    what=f"SCC output fails the property oracle: {VERDICT.get(v_out, v_out)}", document=doc.v)
-    elif not isinstance(rd, Ok):
-        viol = dict(base, kind="more-than-15-rows" if many_rows else "reread-raises",
-                    what=f"SCCReader.read of the writer's output raised {impl.ERR_NAMES.get(rd.code, rd.code)}",
-                    document=doc.v)
-    elif v_rd != 0:
-        viol = dict(base, kind="more-than-15-rows" if many_rows else "reread-" + VERDICT.get(v_rd, str(v_rd)),
-                    what=f"re-read captions fail the property oracle: {VERDICT.get(v_rd, v_rd)}",
-                    document=doc.v, reread=[[str(a), b] for a, b in rd.v])
-    if viol and many_rows:
-        viol["what"] = ("a caption laid out on more than 15 rows is written with an invalid / wrapped-around row "
-                        "address: " + viol["what"])
-    dis = None
-    if viol is None and isinstance(model_doc, Ok) != isinstance(doc, Ok):
-        dis = {"stream": "B", "input": inp, "impl": repr(doc)[:300], "model": repr(model_doc)[:300]}
-    elif viol is None and isinstance(doc, Ok) and model_doc.v != doc.v and not near_threshold(caps, sizes):
-        dis = {"stream": "B", "input": inp, "impl": doc.v, "model": model_doc.v,
-               "what": "SCCWriter.write output differs from the model"}
-    return viol, dis
+        return ("write-raises", f"SCCWriter.write raised {impl.ERR_NAMES.get(doc.code, doc.code)}", {})
+    if v_out != 0:
+        return (VERDICT.get(v_out, str(v_out)), f"SCC output fails the property oracle: {VERDICT.get(v_out, v_out)}", {"document": doc.v})
+    if not isinstance(rd, Ok):
+        return ("reread-raises", f"SCCReader.read of the writer's output raised {impl.ERR_NAMES.get(rd.code, rd.code)}",
+                {"document": doc.v})
+    if v_rd != 0:
+        return ("reread-" + VERDICT.get(v_rd, str(v_rd)), f"re-read captions fail the property oracle: {VERDICT.get(v_rd, v_rd)}",
+                {"document": doc.v, "reread": [[str(a), b] for a, b in rd.v]})
+    return None
 
 
-def judge_composition(caps, sizes, rd, rt):
+def judge_composition(case, sizes, rd, rt):
     """writer model o reader model (request 1705): must satisfy the property on its own, and must equal what the real
     reader returned for the real writer's output (texts exactly, starts within 2^-10 us)"""
-    inp = [{"lines": lines, "start": str(s), "end": str(e)} for lines, s, e in caps]
+    inp = plain(case)
     status, obs, ok = rt
     if status != 0 or ok != 1:
         return {"stream": "B-composition", "input": inp, "model": [status, obs, ok],
                 "what": "the writer model composed with the SCC reader model does not re-read to the same words "
                         "(status %d: 0 read, 1 writer error, 2 not a document, 3 reader refused)" % status}
-    if isinstance(rd, Ok) and not near_threshold(caps, sizes):
+    if isinstance(rd, Ok) and not near_threshold(case["caps"], sizes):
         real = rd.v
         same = len(real) == len(obs) and all(
             r[1] == o[1] and abs(r[0] - Fraction(o[0][0], o[0][1])) <= Fraction(1, 1024) for r, o in zip(real, obs))
@@ -293,70 +401,170 @@ def judge_composition(caps, sizes, rd, rt):
 
 
 def evaluate(cases):
-    """cases: list of caps. Returns list of (caps, sizes, rows, viol, dis, near)"""
-    flat = [(1704, "\n".join(lines)) for caps in cases for lines, s, e in caps]
+    """-> list of dicts: case, sizes, rows, viol, dis, near, info"""
+    flat = [(1704, "\n".join(c["lines"])) for case in cases for c in case["caps"]]
     info = oracle_batch(flat)
-    out = []
-    k = 0
-    obs = []
-    reqs = []
-    for caps in cases:
-        rows = [info[k + i][0] for i in range(len(caps))]
-        sizes = [info[k + i][1] for i in range(len(caps))]
-        k += len(caps)
-        doc, rd = observe(caps)
-        obs.append((caps, sizes, rows, doc, rd))
-        wc = wire_caps(caps)
-        reqs.append((1701, wc))
-        reqs.append((1702, [wc, doc.v if isinstance(doc, Ok) else ""]))
-        reqs.append((1703, [wc, rd.v if isinstance(rd, Ok) else []]))
-        reqs.append((1705, wc))
+    obs, reqs, k = [], [], 0
+    for case in cases:
+        n = len(case["caps"])
+        rows = [info[k + i][0] for i in range(n)]
+        sizes = [info[k + i][1] for i in range(n)]
+        k += n
+        doc, rd = observe(case)
+        obs.append((case, sizes, rows, doc, rd))
+        wc = wire_caps(case["caps"])
+        reqs += [(1701, wc), (1702, [wc, doc.v if isinstance(doc, Ok) else ""]),
+                 (1703, [wc, rd.v if isinstance(rd, Ok) else []]), (1705, wc)]
     resp = oracle_batch(reqs)
-    for i, (caps, sizes, rows, doc, rd) in enumerate(obs):
+    out, second = [], []
+    for i, (case, sizes, rows, doc, rd) in enumerate(obs):
         m, v_out, v_rd, rt = resp[4 * i:4 * i + 4]
         model_doc = Ok(m[1]) if m[0] == 0 else Err(m[1])
-        viol, dis = judge(caps, sizes, rows, doc, rd, model_doc, v_out, v_rd)
-        if viol is None and dis is None and all(r <= 15 for r in rows):
-            dis = judge_composition(caps, sizes, rd, rt)
-        out.append((caps, sizes, rows, viol, dis, near_threshold(caps, sizes)))
+        caps = case["caps"]
+        near = near_threshold(caps, sizes)
+        rec = {"case": case, "sizes": sizes, "rows": rows, "viol": None, "dis": None, "near": near, "doc": doc,
+               "clear_removed": False}
+        inp = plain(case)
+        base = {"input": inp, "replay": "write", "stream": "B"}
+        special = {i for i, r in enumerate(rows) if r > 15} | {i for i, c in enumerate(caps) if is_blank_text(c["lines"])}
+        if isinstance(doc, Ok):
+            ls = doc_lines(doc.v)
+            if ls is not None:
+                rec["clear_removed"] = sum(1 for tc, ws in ls if ws == CLEAR) < len(caps)
+        if case["flags"].get("extended"):
+            verdict = None                # outside the domain: the document is compared with the model only
+        elif case["flags"].get("early_first") and isinstance(doc, Ok):
+            # outside the hypothesis (the first cue cannot be sent in time): the structural clauses are still judged,
+            # 'visible within three frames' and the re-read are not
+            verdict = None if v_out in (0, 8) else (VERDICT.get(v_out, str(v_out)),
+                                                    f"SCC output fails the property oracle: {VERDICT.get(v_out, v_out)}", {"document": doc.v})
+        else:
+            verdict = verdict_of(case, doc, rd, v_out, v_rd)
+        if verdict is not None and special:
+            second.append((len(out), special, verdict))      # decide below whether the failure is the known one
+        elif verdict is not None:
+            rec["viol"] = dict(base, kind=verdict[0], what=verdict[1], **verdict[2])
+        # correspondence with the model: exact document; on an exact float boundary only the payload of the load lines
+        if rec["viol"] is None and verdict is None:
+            if isinstance(model_doc, Ok) != isinstance(doc, Ok):
+                rec["dis"] = {"stream": "B", "input": inp, "impl": repr(doc)[:300], "model": repr(model_doc)[:300]}
+            elif isinstance(doc, Ok) and model_doc.v != doc.v and (not near or payload(model_doc.v) != payload(doc.v)):
+                rec["dis"] = {"stream": "B", "input": inp, "impl": doc.v, "model": model_doc.v,
+                              "what": "SCCWriter.write output differs from the model"
+                                      + (" (payload of the load lines; timecodes exempt on an exact float boundary)" if near else "")}
+            elif isinstance(doc, Ok) and payload(doc.v) is not None and \
+                    [len(w.split()) for w in payload(doc.v)] != [max(z, 8) for z in sizes]:
+                rec["dis"] = {"stream": "B", "input": inp, "impl": [len(w.split()) for w in payload(doc.v)], "model": sizes,
+                              "what": "code words per load in the implementation's document differ from the model's sizes"}
+            elif not special and not case["flags"].get("extended") and not case["flags"].get("early_first"):
+                rec["dis"] = judge_composition(case, sizes, rd, rt)
+        out.append(rec)
+    # cases with a caption on more than 15 rows or a whitespace-only cue that failed: judge the OTHER cues on their own
+    reqs2 = []
+    for idx, special, verdict in second:
+        case, doc = out[idx]["case"], out[idx]["doc"]
+        rest = [c for i, c in enumerate(case["caps"]) if i not in special]
+        wc = wire_caps(rest)
+        red, dropped = without_cues(doc.v, special) if isinstance(doc, Ok) else (None, [])
+        rd2 = reread(red) if red is not None and rest else Ok([])
+        out[idx]["second"] = (rest, red, dropped, rd2)
+        reqs2 += [(1702, [wc, red if red is not None else ""]), (1703, [wc, rd2.v if isinstance(rd2, Ok) else []])]
+    resp2 = oracle_batch(reqs2) if reqs2 else []
+    for n, (idx, special, verdict) in enumerate(second):
+        rec = out[idx]
+        case = rec["case"]
+        rest, red, dropped, rd2 = rec.pop("second")
+        v_out2, v_rd2 = resp2[2 * n:2 * n + 2]
+        base = {"input": plain(case), "replay": "write", "stream": "B"}
+        sub = {"caps": rest, "flags": case["flags"]}
+        v2 = ("write-raises", verdict[1], {}) if red is None else (verdict_of(sub, Ok(red), rd2, v_out2, v_rd2) if rest else None)
+        many = [i for i in special if rec["rows"][i] > 15]
+        blank = [i for i in special if is_blank_text(case["caps"][i]["lines"])]
+        if v2 is not None:
+            # the cues that are neither over-long nor blank fail on their own: an ordinary violation
+            rec["viol"] = dict(base, kind=v2[0], what="with the captions %r left out (more than 15 rows / whitespace-only): %s"
+                               % (sorted(special), v2[1]), **v2[2])
+            continue
+        viol = dict(base, kind=verdict[0], what=verdict[1], **verdict[2])
+        if many and verdict[0] == "not-scenarist-hex-words" and any("xx" in w for w in dropped):
+            viol["failure"] = "row-0-address-xx"
+            viol["what"] = ("a caption laid out on more than 15 rows is written with the row-0 placeholder 'xx' as its row "
+                            "address (all other cues of the set pass every clause): " + verdict[1])
+        elif blank and not many and verdict[0].startswith("reread-"):
+            viol["failure"] = "blank-cue-dropped-by-reader"
+            viol["what"] = ("a cue whose text is whitespace only is written as a load without text and SCCReader returns no "
+                            "caption for it (all other cues of the set re-read correctly): " + verdict[1])
+        rec["viol"] = viol
     return out
 
 
-def shrink(caps):
-    """try single captions (re-scheduled alone) and prefixes while a violation of the same kind persists"""
-    base = evaluate([caps])[0][3]
+def shrink(case):
+    """try single captions and prefixes (times kept) while a violation of the same kind persists"""
+    base = evaluate([case])[0]["viol"]
     if base is None:
-        return caps, base
-    best, bestv = caps, base
+        return case, base
+    best, bestv = case, base
+    caps = case["caps"]
     cands = [caps[:k] for k in range(1, len(caps))] + [[c] for c in caps]
     for cand in cands:
-        v = evaluate([cand])[0][3]
-        if v is not None and v["kind"] == base["kind"] and len(cand) < len(best):
-            best, bestv = cand, v
+        cc = {"caps": cand, "flags": case["flags"]}
+        v = evaluate([cc])[0]["viol"]
+        if v is not None and v["kind"] == base["kind"] and v.get("failure") == base.get("failure") and len(cand) < len(best["caps"]):
+            best, bestv = cc, v
     return best, bestv
 
 
-def build_cases(ctx):
+def build_cases(ctx, counts):
     rng = ctx.rng
-    n = ctx.n(700, 20000)
-    texts_list = [gen_caps(ctx, None) for _ in range(n)]
-    # fixed grid: one-letter cue, the design-time witnesses, boundary starts
-    grid = [[["a"]], [["hello world number 0"]], [["aaaaaaaaaa bbbbbbbbbb cccccccc-dddddddddd eee"]],
-            [["x" * 32], ["y" * 33]], [["a" * 80, "b" * 80, "c" * 80, "d" * 80]],
-            [["ab"], ["cd"], ["ef"]], [["Ñandú ÷ çé", "íóú á"]]]
-    # the known shape: more than 15 laid-out rows (4 lines x 4 rows)
-    w17 = " ".join(["a" * 17] * 4)
-    grid += [[[w17, w17, w17, w17]], [[w17 + " bbbbbbbb", w17, w17, w17 + " cc"], ["after"]]]
-    texts_list = grid + texts_list
-    flat = [(1704, "\n".join(lines)) for texts in texts_list for lines in texts]
+    n = ctx.n(600, 20000)
+    texts_list = [gen_texts(rng, counts) for _ in range(n)]
+    w17 = " ".join(["a" * 17] * 4)                 # one line -> 4 rows
+    w17x = w17 + " bbbbbbbb"                       # 80 characters, still 4 rows: no line of <= 80 characters gives 5
+    P = lambda *lines: (list(lines), {})           # noqa: E731
+    grid = [
+        # one-letter cue, the design-time witnesses, boundary starts
+        [P("a")], [P("hello world number 0")], [P("aaaaaaaaaa bbbbbbbbbb cccccccc-dddddddddd eee")],
+        [P("x" * 32), P("y" * 33)], [P("a" * 80, "b" * 80, "c" * 80, "d" * 80)],
+        [P("ab"), P("cd"), P("ef")], [P("Ñandú ÷ çé", "íóú á")],
+        # identical consecutive cues
+        [P("ab"), P("ab"), P("ab")], [P("same words", "twice"), P("same words", "twice"), P("other"), P("other")],
+        # several text nodes per line, style nodes, layout
+        [(["ab cd", "xy"], {"cuts": {"0": [0, 3, 5], "1": [1]}, "italic": True, "layout": True})],
+        [(["abcdefgh"], {"cuts": {"0": [1, 2, 3]}}) for _ in range(3)],
+        [(["a b c d e f g h i"], {"cuts": {"0": [1, 2, 3, 4, 5, 6, 7, 8, 9]}})],
+        # whitespace-only line / cue
+        [P("ab", "  ", "cd")], [P(" ab", "cd ")],
+        [P("ab"), P("  "), P("cd")], [P("  ")], [P(" ", " ")],
+        # 14 / 15 rows (the last valid ones), then the known shape: 16, 17, 20 rows
+        [P(w17, w17, w17, "a" * 17 + " " + "a" * 17)], [P(w17, w17, w17, " ".join(["a" * 17] * 3))], [P(w17x, w17x, w17x)],
+        [P(w17, w17, w17, w17)], [P(w17x, w17, w17, w17 + " cc"), P("after")], [P(w17x, w17x, w17x, w17x)],
+        [P("before"), P(w17, w17, w17, w17), P("after one"), P("after two")],
+        # five lines (outside the quantifier's 1-4 lines): 17 and 20 rows, Python's negative row index wraps around
+        [P(w17, w17, w17, w17, "z")], [P(w17, w17, w17, w17, w17), P("after")],
+        # 12 cues
+        [P("cue %d" % i) for i in range(12)],
+        # characters outside the basic set (outside the domain: model equality only)
+        [P("caf\u00e9 \u00ae \u00bd \u266a"), P("\u00c1\u00c9 \u201cq\u201d \u20ac x")],
+    ]
+    cases_t = [(g, {}) for g in grid]
+    cases_t[-1][1]["extended"] = True
+    # the first cue starts before it can be transmitted (clamp at 0; outside the hypothesis)
+    cases_t += [([P("this first cue starts too early to be sent")], {"early_first": True}),
+                ([P("early", "first"), P("second cue")], {"early_first": True})]
+    for t, f in texts_list:
+        if rng.random() < 0.03:
+            f["early_first"] = True
+        cases_t.append((t, f))
+    flat = [(1704, "\n".join(lines)) for texts, f in cases_t for lines, shape in texts]
     info = oracle_batch(flat)
     cases = []
     k = 0
-    for texts in texts_list:
+    for texts, flags in cases_t:
         sizes = [max(info[k + i][1], 8) for i in range(len(texts))]
         k += len(texts)
-        spans = schedule(rng, texts, sizes)
-        cases.append([(lines, s, e) for lines, (s, e) in zip(texts, spans)])
+        spans = schedule(rng, sizes, flags)
+        cases.append({"caps": [{"lines": lines, "start": s, "end": e, "shape": shape} for (lines, shape), (s, e) in zip(texts, spans)],
+                      "flags": flags})
     return cases
 
 
@@ -382,12 +590,11 @@ def run_reused_reader(ctx, res, cases):
     for d in RAISING_DOCS + [VALID_DOC]:
         seen.append(type(impl.call(lambda: reader.read(d))).__name__)
     reqs, rows = [], []
-    for caps in cases:
+    for case in cases:
         if rng.random() < 0.5:
             d = rng.choice(RAISING_DOCS + [VALID_DOC])
             impl.call(lambda: reader.read(d))
-        cs = CaptionSet({"en-US": CaptionList([mk_caption(num(s), num(e), lines) for lines, s, e in caps])})
-        doc = impl.call(lambda: SCCWriter().write(cs))
+        doc, _ = observe(case)
         if not isinstance(doc, Ok):
             continue
 
@@ -398,14 +605,14 @@ def run_reused_reader(ctx, res, cases):
                 return Ok([[Fraction(c.start), c.get_text()] for c in out.v.get_captions(lang)])
             return out
         used, fresh = obs(reader), obs(SCCReader())
-        rows.append((caps, doc.v, used, fresh))
-        reqs.append((1703, [wire_caps(caps), used.v if isinstance(used, Ok) else []]))
+        rows.append((case, doc.v, used, fresh))
+        reqs.append((1703, [wire_caps(case["caps"]), used.v if isinstance(used, Ok) else []]))
     verdicts = oracle_batch(reqs)
     res["distribution"]["C_reread_with_a_used_reader"] = len(rows)
     res["distribution"]["C_reader_history_before"] = seen
-    for (caps, doc, used, fresh), v in zip(rows, verdicts):
+    for (case, doc, used, fresh), v in zip(rows, verdicts):
         res["evaluations"] += 1
-        inp = [{"lines": lines, "start": str(s), "end": str(e)} for lines, s, e in caps]
+        inp = plain(case)
         if isinstance(fresh, Ok) and (not isinstance(used, Ok) or v != 0):
             res["violations"].append({"kind": "reread-with-used-reader", "input": inp, "document": doc, "replay": "used-reader",
                                       "what": "an SCCReader that has read (and refused) other documents before re-reads the writer's "
@@ -424,43 +631,71 @@ def run(ctx):
     res = {"evaluations": 0, "nontrivial": set(), "violations": [], "disagreements": [], "distribution": {},
            "streams": 5, "notes": []}
     run_wrap(ctx, res)
-    cases = build_cases(ctx)
     dist = res["distribution"]
-    for key in ("B_cases", "B_near_threshold_excluded_from_equality", "B_rows_gt_15", "B_clear_removed",
-                "B_wrapped", "B_long_word_split", "B_captions"):
+    for key in ("B_cases", "B_near_threshold(timecodes exempt, payload compared)", "B_rows_gt_15", "B_clear_removed",
+                "B_wrapped", "B_long_word_split", "B_captions", "B_cue_identical_to_previous", "B_whitespace_only_line",
+                "B_whitespace_only_cue", "B_more_than_6_cues", "B_several_text_nodes_per_line", "B_style_nodes",
+                "B_layout_info", "B_second_language", "B_cue_ends_after_next_start",
+                "B_first_cue_before_its_transmission_time(outside the hypothesis; structural clauses and model equality only)",
+                "B_characters_outside_basic_set(outside the domain; model equality only)"):
         dist[key] = 0
+    cases = build_cases(ctx, dist)
+    rows_hist = {}
     seen_kinds = set()
-    for caps, sizes, rows, viol, dis, near in evaluate(cases):
+    for rec in evaluate(cases):
+        case, rows, viol, dis = rec["case"], rec["rows"], rec["viol"], rec["dis"]
+        caps, flags = case["caps"], case["flags"]
         res["evaluations"] += 1
         dist["B_cases"] += 1
         dist["B_captions"] += len(caps)
-        dist["B_near_threshold_excluded_from_equality"] += int(near)
+        dist["B_near_threshold(timecodes exempt, payload compared)"] += int(rec["near"])
         dist["B_rows_gt_15"] += int(any(r > 15 for r in rows))
-        dist["B_wrapped"] += int(any(r > len(lines) for r, (lines, s, e) in zip(rows, caps)))
-        dist["B_long_word_split"] += int(any(len(w) > 32 for lines, s, e in caps for l in lines for w in l.split()))
-        key = tuple((tuple(lines), s, e) for lines, s, e in caps)
+        dist["B_clear_removed"] += int(rec["clear_removed"])
+        dist["B_wrapped"] += int(any(r > len(c["lines"]) for r, c in zip(rows, caps)))
+        dist["B_long_word_split"] += int(any(len(w) > 32 for c in caps for l in c["lines"] for w in l.split()))
+        dist["B_whitespace_only_cue"] += int(any(is_blank_text(c["lines"]) for c in caps))
+        dist["B_more_than_6_cues"] += int(len(caps) > 6)
+        dist["B_several_text_nodes_per_line"] += int(any(c["shape"].get("cuts") for c in caps))
+        dist["B_style_nodes"] += int(any(c["shape"].get("italic") for c in caps))
+        dist["B_layout_info"] += int(any(c["shape"].get("layout") for c in caps))
+        dist["B_second_language"] += int(bool(flags.get("second_language")))
+        dist["B_cue_ends_after_next_start"] += int(bool(flags.get("overlapping_end")))
+        dist["B_first_cue_before_its_transmission_time(outside the hypothesis; structural clauses and model equality only)"] += \
+            int(bool(flags.get("early_first")))
+        dist["B_characters_outside_basic_set(outside the domain; model equality only)"] += int(bool(flags.get("extended")))
+        for r in rows:
+            rows_hist[r] = rows_hist.get(r, 0) + 1
+        key = tuple((tuple(c["lines"]), c["start"], c["end"]) for c in caps)
         if len(caps) > 1 or any(r > 1 for r in rows):
             res["nontrivial"].add(key)
         if viol is not None:
-            if viol["kind"] not in seen_kinds and viol["kind"] != "more-than-15-rows":
-                seen_kinds.add(viol["kind"])
-                small, v2 = shrink(caps)
+            k = (viol["kind"], viol.get("failure"))
+            if k not in seen_kinds:
+                seen_kinds.add(k)
+                small, v2 = shrink(case)
                 if v2 is not None:
                     viol = v2
             res["violations"].append(viol)
         if dis is not None:
             res["disagreements"].append(dis)
-    in_domain = [c for c in cases if all(len(l) <= 80 for lines, s, e in c for l in lines)][11:]
+    dist["B_rows_per_caption"] = {str(k): v for k, v in sorted(rows_hist.items())}
+    in_domain = [c for c in cases[30:] if all(len(l) <= 80 for cp in c["caps"] for l in cp["lines"])
+                 and not c["flags"].get("extended") and not c["flags"].get("early_first")
+                 and not any(is_blank_text(cp["lines"]) for cp in c["caps"])]
     run_reused_reader(ctx, res, in_domain[:ctx.n(200, 4000)])
-    res["samples"] = [[{"lines": l, "start": str(s), "end": str(e)} for l, s, e in c] for c in cases[9:12]]
+    res["samples"] = [plain(c) for c in cases[9:12]]
     res["rule"] = ("A: texts over the tree's basic character set (word lengths 1..40, space runs, hyphens, lengths "
-                   "around the width), non-trivial = wraps to more than one row. B: API-built caption sets of 1-6 "
-                   "cues x 1-4 lines x 1-80 characters with spacings from exactly the transmission time "
+                   "around the width), non-trivial = wraps to more than one row. B: API-built caption sets of 1-40 "
+                   "cues (identical consecutive cues, several text nodes per line, style nodes, layout, second language) "
+                   "x 1-4 lines x 1-80 characters (whitespace-only lines and cues included) with spacings from exactly the transmission time "
                    "(code words x 1001000/30 us) to seconds, clear-screen times around the 3-frame threshold, "
                    "starts on exact frame boundaries; non-trivial = more than one cue or a wrapped line "
                    "(distinct inputs counted).")
     res["clauses"] = {
-        "theorem": ["every byte the writer can emit has odd parity (complete tables + induction over any text)",
+        "theorem": ["COMPOSED: for sets over the basic set, <= 15 rows per caption, cues ordered / not overlapping / each "
+                    "starting its own transmission time after the previous start, the model's document gets verdict 0 "
+                    "from the property oracle ok_output (C17_write_meets_oracle)",
+                    "every byte the writer can emit has odd parity (complete tables + induction over any text)",
                     "PAC rows addressed are exactly 16-n..15, within 1..15, for 1 <= n <= 15 laid-out rows",
                     "laid-out rows have at most 32 columns (all texts)",
                     "wrapping removes only whitespace (all texts); words of the rows refine the words of the text, "
@@ -472,6 +707,8 @@ def run(ctx):
         "correspondence_only": ["textwrap.wrap itself (stream A validates the Coq model of it)",
                                 "binary64 arithmetic of PASS 2 and _format_timestamp (exact model; exact-boundary "
                                 "inputs counted as near_threshold)",
+                                "join of a caption's text nodes, style nodes, layout, language choice, deepcopy (API shapes of "
+                                "stream B; the model sees the joined text)",
                                 "re-reading through the real SCCReader: one caption per cue, same words, start time; the same "
                                 "statement for the writer model composed with builder sccr's full reader model is evaluated "
                                 "on every case (request 1705) and compared with the real pair; complete-table theorems for "
@@ -498,7 +735,7 @@ def replay(ctx, rec):
         reader = SCCReader()
         for d in RAISING_DOCS + [VALID_DOC]:
             impl.call(lambda: reader.read(d))
-        caps = [(c["lines"], Fraction(c["start"]), Fraction(c["end"])) for c in rec["input"]]
+        caps = unplain(rec["input"])["caps"]
         out = impl.call(lambda: reader.read(rec["document"]))
         if not isinstance(out, Ok):
             return True, repr(out)
@@ -507,7 +744,6 @@ def replay(ctx, rec):
         v = oracle_batch([(1703, [wire_caps(caps), got])])[0]
         return v != 0, "verdict %s: %r" % (v, got[:3])
     if rec.get("replay") == "write":
-        caps = [(c["lines"], Fraction(c["start"]), Fraction(c["end"])) for c in rec["input"]]
-        caps_, sizes, rows, viol, dis, near = evaluate([caps])[0]
+        viol = evaluate([unplain(rec["input"])])[0]["viol"]
         return viol is not None, (viol or {}).get("what", "property oracle accepts the output")
     return False, "unknown replay kind"
